@@ -1,0 +1,118 @@
+// SPDX-FileCopyrightText: 2026 The Pion community <https://pion.ly>
+// SPDX-License-Identifier: MIT
+
+//go:build verif
+
+package ice
+
+import (
+	"context"
+	"math/rand"
+	"net"
+	"sync"
+
+	"github.com/pion/ice/v4/internal/taskloop"
+	"github.com/pion/ice/v4/internal/verifhook"
+	"github.com/pion/turn/v5"
+)
+
+// This file exists only under the "verif" build tag. It exposes narrow seams
+// for the deterministic simulator in /verif and has no behavior of its own.
+
+// VerifSetYield installs the simulator's scheduling callback.
+func VerifSetYield(f func(site string)) { verifhook.SetYield(f) }
+
+// VerifSetNote installs the simulator's observer callback.
+func VerifSetNote(f func(site string, v any)) { verifhook.SetNote(f) }
+
+type verifSeededRand struct {
+	mu sync.Mutex
+	r  *rand.Rand
+}
+
+func (g *verifSeededRand) Intn(n int) int {
+	g.mu.Lock()
+	defer g.mu.Unlock()
+
+	return g.r.Intn(n)
+}
+
+func (g *verifSeededRand) Uint32() uint32 {
+	g.mu.Lock()
+	defer g.mu.Unlock()
+
+	return g.r.Uint32()
+}
+
+func (g *verifSeededRand) Uint64() uint64 {
+	g.mu.Lock()
+	defer g.mu.Unlock()
+
+	return g.r.Uint64()
+}
+
+func (g *verifSeededRand) GenerateString(n int, runes string) string {
+	g.mu.Lock()
+	defer g.mu.Unlock()
+
+	letters := []rune(runes)
+	b := make([]rune, n)
+	for i := range b {
+		b[i] = letters[g.r.Intn(len(letters))]
+	}
+
+	return string(b)
+}
+
+// VerifSeedGlobalRand replaces the package-level math random generator
+// (tie-breakers, candidate ids, port-scan start) with a seeded one.
+func VerifSeedGlobalRand(seed int64) {
+	g := &verifSeededRand{r: rand.New(rand.NewSource(seed))} //nolint:gosec
+	globalMathRandomGenerator = g
+	globalCandidateIDGenerator = candidateIDGenerator{g}
+}
+
+// VerifSetTieBreaker overwrites the agent's tie-breaker through its task loop.
+func VerifSetTieBreaker(a *Agent, v uint64) error {
+	return a.loop.Run(a.loop, func(context.Context) { a.tieBreaker = v })
+}
+
+// VerifLoop aliases the internal task loop.
+type VerifLoop = taskloop.Loop
+
+// VerifNewLoop creates a task loop.
+func VerifNewLoop(onClose func()) *VerifLoop { return taskloop.New(onClose) }
+
+// VerifErrLoopClosed is the task loop's closed error.
+var VerifErrLoopClosed = taskloop.ErrClosed //nolint:gochecknoglobals
+
+// VerifReadStreamingPacket exposes the RFC 4571 frame reader.
+func VerifReadStreamingPacket(conn net.Conn, buf []byte) (int, error) {
+	return readStreamingPacket(conn, buf)
+}
+
+// VerifWriteStreamingPacket exposes the RFC 4571 frame writer.
+func VerifWriteStreamingPacket(conn net.Conn, buf []byte) (int, error) {
+	return writeStreamingPacket(conn, buf)
+}
+
+// VerifAbortWrite invokes the unexported write-abort protocol of a connection, if it has one.
+func VerifAbortWrite(c net.PacketConn) (bool, error) {
+	if a, ok := c.(writeAborter); ok {
+		return true, a.abortWrite()
+	}
+
+	return false, nil
+}
+
+// VerifTURNClient aliases the unexported TURN client interface.
+type VerifTURNClient = turnClient
+
+// VerifWithTURNClientFactory replaces the TURN client constructor used while gathering relay candidates.
+func VerifWithTURNClientFactory(f func(*turn.ClientConfig) (VerifTURNClient, error)) AgentOption {
+	return func(a *Agent) error {
+		a.turnClientFactory = f
+
+		return nil
+	}
+}
